@@ -5,6 +5,14 @@
 // https://opensource.org/licenses/MIT.
 
 fn main() {
+    // The commands that are run are waited for: with SIGCHLD ignored (a
+    // disposition inherited from the caller) the kernel would reap them itself
+    // and every wait would fail.
+    #[cfg(unix)]
+    unsafe {
+        uucore::libc::signal(uucore::libc::SIGCHLD, uucore::libc::SIG_DFL);
+    }
+
     let args = std::env::args().collect::<Vec<String>>();
     std::process::exit(findutils::xargs::xargs_main(
         &args
